@@ -22,7 +22,7 @@ Inductive dcase :=
 | DHouseApply (isleft : bool) (M : fmat) (beta : float) (nu : list float) (out : fmat)
 | DGivens (a b c s : float)
 | DGivApply (sub : nat) (M : fmat) (c s : float) (i k : nat) (out : fmat)
-| DGS (A Q R : fmat)
+| DGS (R0 A Q R : fmat)
 | DHess (setzero computeU : bool) (A H : fmat) (U : option fmat)
 | DBidiag (cu cv : bool) (A B : fmat) (U V : option fmat)
 | DTridiag (cu : bool) (A T : fmat) (U : option fmat).
@@ -70,7 +70,7 @@ Definition dcheck (c : dcase) : bool :=
       fm_eqb (if isleft then house_left X M beta nu else house_right X M beta nu) out
   | DGivens a b c s => let r := givens X a b in feqb (fst r) c && feqb (snd r) s
   | DGivApply sub M c s i k out => fm_eqb (giv_variant sub M c s i k) out
-  | DGS A Q R => let r := gram_schmidt X A in fm_eqb (fst r) Q && fm_eqb (snd r) R
+  | DGS R0 A Q R => let r := gram_schmidt_in X R0 A in fm_eqb (fst r) Q && fm_eqb (snd r) R
   | DHess sz cu A H U => let r := hessenberg X sz cu A in fm_eqb (fst r) H && ofm_eqb (snd r) U
   | DBidiag cu cv A B U V =>
       let r := bidiag X cu cv A in
